@@ -276,6 +276,28 @@ fn ss_udp_cases(s: &mut Session, rng: &mut Rng, cipher: &'static str, want_user:
             }
         }
     }
+    // a registered user cannot speak as another: after user B's own datagram on session X (which fills the server's
+    // cipher cache for X), a datagram sealed under B's key whose identity header names user A is refused
+    if cfg.with_user {
+        if let Some(mut cr) = Crafter::new() {
+            let users: Vec<(&str, &str)> = cfg.users.split(';').map(|u| u.split_once(':').unwrap()).collect();
+            let (b_name, b_key) = *users.iter().find(|(n, _)| *n == want_name).unwrap();
+            if let Some((a_name, a_key)) = users.iter().find(|(n, _)| *n != want_name) {
+                let sid = 1 + rng.below(1 << 50);
+                let body = |rng: &mut Rng| [vec![0u8], now_secs().to_be_bytes().to_vec(), vec![0, 0], vec![1, 1, 2, 3, 4, 0, 53], rng.bytes(9)].concat();
+                let w = cr.ask(&format!("craft.ssu cipher={} password={} ipsk={} sid={} pid=1 rnd=- body={}", cipher, b_key, cfg.server_password, sid, hex(&body(rng))));
+                let r = timed(s, &format!("ssu.sdec {} {}", us, w));
+                if !r.starts_with("ok ") || !r.contains(&format!(" user={} ", b_name)) {
+                    s.oracle_fail(&format!("{}:control", key), "a registered user's crafted datagram was not accepted / attributed");
+                }
+                let w = cr.ask(&format!("craft.ssu cipher={} password={} ipsk={} eihfor={} sid={} pid=2 rnd=- body={}", cipher, b_key, cfg.server_password, a_key, sid, hex(&body(rng))));
+                let r = timed(s, &format!("ssu.sdec {} {}", us, w));
+                if r.starts_with("ok") {
+                    s.oracle_fail(&format!("{}:impersonation", key), &format!("a datagram sealed under {}'s key but naming {} in its identity header was accepted: {}", b_name, a_name, &r[..r.len().min(60)]));
+                }
+            }
+        }
+    }
     // the reply to one user opens for that user only (another registered user with the same session id gets nothing)
     if cfg.with_user {
         let csid = 1 + rng.below(1 << 50);
@@ -317,5 +339,19 @@ pub fn generate(s: &mut Session, tier: &str, rng: &mut Rng) {
             }
         }
         vm_tj_cases(s, rng);
+    }
+    // the real server: two users, one session id — each reply is sealed for the user whose datagram it answers
+    for cfg in crate::e2e_gen::protocol_ciphers(rng) {
+        if cfg.protocol != "shadowsocks" || cfg.users == "-" {
+            continue;
+        }
+        s.begin_case(&format!("e2e-udp-owner:{}", cfg.cipher));
+        let Some(w) = cfg.start(s, false, 2) else { continue };
+        let r = s.run(&format!("e2e.udpowner {}", w));
+        if r != "a=ok b=ok a=ok" {
+            s.oracle_fail(&format!("e2e-udp-owner:{}", cfg.cipher), &format!("replies of the real server to two users sharing a session id: `{}`", r));
+        }
+        s.run(&format!("e2e.stop {}", w));
+        s.mark_nontrivial();
     }
 }
